@@ -127,7 +127,7 @@ def gen_unit_cases(r, n, tc):
             conf, exp = gen_layout_case(r)
             for k, val in exp:
                 cases.append(("KL %s %s 0" % (G.hx(conf), G.hx(G.rcase(r, k.encode()))), {"kind": "KL", "stream": "layout", "expect": val}))
-        elif m < 0.93:
+        elif m < 0.86:
             sch, c, tag = G.gen_flat_case(r)
             meta = {"kind": "PF", "tag": tag, "schema": sch, "conf": c}
             if r.random() < 0.4:
@@ -136,6 +136,9 @@ def gen_unit_cases(r, n, tc):
                 cases.append(("PC 1 %s %s" % (sch, G.hx(raw)), meta))
             else:
                 cases.append(("PF 1 %s %s" % (sch, G.hx(c)), meta))
+        elif m < 0.965:
+            sch, c, tag = G.gen_nested_case(r)
+            cases.append(("NP 1 %s %s" % (sch, G.hx(c)), {"kind": "NP", "tag": tag, "conf": c}))
         else:
             d = bytes(r.choice(b"ab  ,,x") for _ in range(r.randint(0, 10)))
             dl = r.choice([b" ", b",", b" ", b"x"])
@@ -168,6 +171,12 @@ def flat_oracle(meta, impl):
     """demands of the property text on the implementation alone, for tagged flat cases; returns (sig, text) or None"""
     tag = meta["tag"]
     acc = impl.startswith("accept")
+    if acc and tag != "bytes":
+        firsts = [l.strip(b" \t").lower().split()[:1] for l in meta["conf"].split(b"\n")]
+        for it in meta["schema"].split(","):
+            kd, key = it.split(":")
+            if kd.endswith("!") and [G.unhx(key).lower()] not in firsts:
+                return ("strict:required-keyword-missing-accepted", "keyword %r is looked up with parse_required, is absent, and the configuration is accepted" % G.unhx(key))
     if tag in ("unknown-keyword", "misspelt", "brace") and acc:
         return ("strict:%s-accepted" % tag, "a configuration with %s is accepted" % {"unknown-keyword": "a keyword that the context does not know",
                 "misspelt": "a misspelt keyword", "brace": "a stray brace"}[tag])
@@ -186,7 +195,8 @@ def value_oracle(meta, impl):
         return None
     lines = conf.split(b"\n")
     for (kind, key), v in zip(sch, vals):
-        if kind not in ("R", "I", "V") and kind[0] != "N":
+        kind = kind.rstrip("!")
+        if kind not in ("R", "I", "V") and kind[0] not in "NT":
             continue
         if v == "-":
             continue
@@ -200,6 +210,15 @@ def value_oracle(meta, impl):
                 return ("strict:scalar:text-after-number", "keyword %r: value text %r is not one number, accepted as %s" % (key, text, v))
             if float(text.strip(ISSPACE)) != float.fromhex(v):
                 return ("value:real", "keyword %r: value text %r read as %s" % (key, text, v))
+        elif kind[0] == "T":
+            n = int(kind[1:])
+            t = text.strip(ISSPACE)
+            inner = t[1:-1].split(b",") if t.startswith(b"(") and t.endswith(b")") else None
+            got = [float.fromhex(x) for x in v.strip("()").split(";") if x]
+            if inner is None or len(inner) != n or not all(is_number_text(x) for x in inner):
+                return ("strict:tuple:malformed-accepted", "keyword %r: value text %r is not a tuple of %d numbers, accepted as %s" % (key, text, n, got))
+            if [float(x.strip(ISSPACE)) for x in inner] != got:
+                return ("value:tuple", "keyword %r: value text %r read as %s" % (key, text, got))
         elif kind == "I":
             if not is_int_text(text):
                 return ("strict:scalar:text-after-number", "keyword %r: value text %r is not one integer, accepted as %s" % (key, text, v))
@@ -397,6 +416,15 @@ MODULE_WITNESSES = [
     ("strict:atoms:unparsable-atom-range", 4, DZ % ("atomNumbers 1\n      atomNumbersRange abc", "0.25"), False,
      "`atomNumbersRange abc` is accepted (ignored)"),
     ("strict:vector1d:missing-parenthesis", 4, DP % "(0.1, 0.2, 0.3, 0.4", False, "`centers (0.1, 0.2, 0.3, 0.4` without the closing parenthesis is accepted"),
+    # an unknown keyword on a line of its own at every depth: only check_keywords of that level can refuse it
+    ("strict:module:unknown-keyword-at-module-level", 4, "fooBar 2\n" + DZ % ("atomNumbers 1", "0.25"), False, "unknown keyword at the module level"),
+    ("strict:module:unknown-keyword-in-colvar", 4, (DZ % ("atomNumbers 1", "0.25")).replace("  width 0.5\n", "  width 0.5\n  fooBar 2\n"), False,
+     "unknown keyword in a colvar block"),
+    ("strict:module:unknown-keyword-in-component", 4, (DZ % ("atomNumbers 1", "0.25")).replace("    axis (0,0,1)\n", "    axis (0,0,1)\n    fooBar 2\n"), False,
+     "unknown keyword in a component block"),
+    ("strict:module:unknown-keyword-in-atom-group", 4, DZ % ("atomNumbers 1\n      fooBar 2", "0.25"), False, "unknown keyword in an atom group block"),
+    ("strict:module:unknown-keyword-in-bias", 4, (DZ % ("atomNumbers 1", "0.25")).replace("  forceConstant 4.0\n", "  forceConstant 4.0\n  fooBar 2\n"), False,
+     "unknown keyword in a bias block"),
     ("crash:colvar::groupcoordnum::init", 4, GC % "indexGroup nosuch", False, "groupCoord with an undefined index group"),
     ("crash:colvar::distance_inv::init", 4, (GC % "indexGroup nosuch").replace("groupCoord", "distanceInv"), False, "distanceInv with an undefined index group"),
     ("crash:colvar::distance_pairs::init", 4, (GC % "indexGroup nosuch").replace("groupCoord", "distancePairs"), False, "distancePairs with an undefined index group"),
@@ -680,7 +708,7 @@ def check(run):
         if kind == "KL":
             nontriv = io.startswith("found") or io.startswith("error")
             run.dist("unit:KL:" + meta.get("stream", "?").split(":")[0])
-        elif kind in ("PF", "PC"):
+        elif kind in ("PF", "PC", "NP"):
             nontriv = io.startswith("accept") or meta.get("tag") not in ("valid", "bytes", "corpus")
             run.dist("unit:%s:%s:%s" % (kind, meta.get("tag"), io.split()[0]))
         else:
@@ -692,8 +720,12 @@ def check(run):
         bad = None
         if kind == "CB":
             s = G.unhx(w[1])[int(w[2]):]
-            if (s.count(b"{") == s.count(b"}")) != (io == "ok"):
-                bad = ("braces:count", "check_braces(%r, %s) = %s" % (G.unhx(w[1]), w[2], io))
+            dd, okn = 0, True
+            for ch in s:
+                dd += (ch == 0x7b) - (ch == 0x7d)
+                okn = okn and dd >= 0
+            if (okn and dd == 0) != (io == "ok"):
+                bad = ("braces:nesting", "check_braces(%r, %s) = %s" % (G.unhx(w[1]), w[2], io))
         elif kind == "SC" and "raw" in meta and c.split()[0] == "SC":
             if G.hx(py_strip_comments(G.unhx(w[1]))) != io:
                 bad = ("layout:comments", "read_config_string turns %r into %r" % (G.unhx(w[1]), G.unhx(io)))
@@ -709,10 +741,15 @@ def check(run):
                 bad = ("layout:key_lookup", "key_lookup of %r in %r gives %s, the value written is %r" % (G.unhx(w[2]), G.unhx(w[1]), io, meta["expect"]))
         elif kind in ("PF", "PC") and meta.get("tag") != "corpus":
             bad = flat_oracle(meta, io) or value_oracle(meta, io)
+        elif kind == "NP":
+            if meta["tag"] in ("misspelt", "wrong-level", "unknown-keyword", "brace") and io == "accept":
+                bad = ("strict:nested:%s-accepted" % meta["tag"], "a nested configuration with a %s mutation is accepted: %r" % (meta["tag"], meta["conf"]))
+            elif meta["tag"] == "valid" and io != "accept":
+                bad = ("layout:nested:valid-refused", "a valid nested configuration (random layout) is refused: %r" % meta["conf"])
         if bad:
             run.violation(bad[0], bad[1], {"kind": "unit", "case": c, "impl": io, "model": mo})
         if io != mo:
-            comp = "unit:" + {"KL": "key_lookup", "CB": "braces", "SC": "comments", "SS": "split_string", "PF": "flat", "PC": "flat"}.get(kind, kind)
+            comp = "unit:" + {"KL": "key_lookup", "CB": "braces", "SC": "comments", "SS": "split_string", "PF": "flat", "PC": "flat", "NP": "nested"}.get(kind, kind)
             if kind in ("PF", "PC"):
                 # is it the pinned (lenient) value rule?  then the repaired defect is back: name it
                 rcl, ml, _ = V.run_lines(model, [c.replace(kind + " 1 ", kind + " 0 ", 1)])
@@ -829,11 +866,11 @@ def check(run):
         elif not must_accept and s2 == "ok":
             run.violation(sig, text, rp)
     # non-nested braces and other whole-string cases that must be refused by the module
-    for txt in [b"}{\n", b"colvar }\n  name x\n{\n", b"}\ncolvar {\n name x\n", b"colvar {\n name x\n}\n}{\n", b"{\n}\n", b"{}\n"]:
+    for txt in [b"smp }\ncolvar {\n", b"smp }\ncolvar {\n  colvarsTrajFrequency 5\n", b"}{\n", b"colvar }\n  name x\n{\n", b"}\ncolvar {\n name x\n", b"colvar {\n name x\n}\n}{\n", b"{\n}\n", b"{}\n"]:
         rc, o2, e2 = run_scn(unit, d, "nest", scenario(1, ["pos 1 0 0 0"], txt, 0))
         run.count("nest:" + txt.decode(), True)
         if conf_status(o2) == "ok":
-            run.violation("strict:module:brace-accepted", "the configuration %r is accepted" % txt, {"kind": "module", "natoms": 1, "positions": [], "config": txt.decode()})
+            run.violation("strict:module:non-nested-braces-accepted", "the configuration %r is accepted" % txt, {"kind": "module", "natoms": 1, "positions": [], "config": txt.decode()})
 
     # ------------------------------------------------------------ 3. crash / hang exploration (not proof)
     nbytes = 60 if quick else 1500
